@@ -93,7 +93,8 @@ class C13(Prop):
             ctx = F.Ctx(self.pid, ">x\nA\n")
             fi = FastaIndex(ctx.path, buffer_size=case["buf"])
             try:
-                return {"chunks": [c.getvalue().decode() for c in fi.get_gap_iter(Gap(case["len"], "scaffold"))]}
+                held = list(fi.get_gap_iter(Gap(case["len"], "scaffold")))
+                return {"chunks": [c.getvalue().decode() for c in held]}
             except Exception as e:
                 return {"err": type(e).__name__}
         if k == "seqchunks":
@@ -111,7 +112,9 @@ class C13(Prop):
 
             fi.sequence_bytes = spy
             try:
-                chunks = [c.getvalue().decode("latin-1") for c in fi.get_sequence_iter(A.row_to_obj(case["frag"]))]
+                # all chunk objects are collected first and read afterwards (a caller may keep them)
+                held = list(fi.get_sequence_iter(A.row_to_obj(case["frag"])))
+                chunks = [c.getvalue().decode("latin-1") for c in held]
             except Exception as e:
                 return {"index": ix, "err": type(e).__name__}
             return {"index": ix, "chunks": chunks, "spans": spans}
